@@ -425,17 +425,22 @@ const (
 
 func (b *built) checkCorpus(scn string, x *index.Index, corp *index.Corpus, arrival []int) *checker {
 	ck := &checker{b: b, scn: scn}
-	ck.hyps = []namedHyp{
-		{"deleted-attr-claim-ignored", hyp{ignoreDel: true}, "attr"},
-		{"delete-claim-date-counted", hyp{countDelDate: true}, "mod"},
-	}
+	// Order matters only where two deviations explain the same observation: a
+	// label is chosen only if the observation equals the reference under that
+	// deviation, and the still-open defect (delete-before-target-lost) is tried
+	// before the repaired one (delete-claim-date-counted, fixed in /repo 6e7383b),
+	// so that the latter label appears only when nothing else explains the value.
+	ck.hyps = []namedHyp{{"deleted-attr-claim-ignored", hyp{ignoreDel: true}, "attr"}}
 	if scn == scInc {
 		lost := lostBefore(b.c, arrival)
 		ck.hyps = append(ck.hyps,
 			namedHyp{"delete-before-target-lost", hyp{lost: lost}, "del"},
 			namedHyp{"delete-before-target-lost", hyp{lost: lost}, "mod"},
-			namedHyp{"delete-before-target-lost+delete-claim-date-counted", hyp{lost: lost, countDelDate: true}, "mod"},
 		)
+	}
+	ck.hyps = append(ck.hyps, namedHyp{"delete-claim-date-counted", hyp{countDelDate: true}, "mod"})
+	if scn == scInc {
+		ck.hyps = append(ck.hyps, namedHyp{"delete-before-target-lost+delete-claim-date-counted", hyp{lost: lostBefore(b.c, arrival), countDelDate: true}, "mod"})
 	}
 	x.RLock()
 	defer x.RUnlock()
